@@ -220,10 +220,23 @@ def reach_under(body, impossible, removed=()):
             c, tr = strip_not(br[0], True)
             if c[0] != "phi":
                 continue
-            defs = body.defs().get(c[1], [])
-            if not defs or not all(d[0] == "=" and d[3]["k"] == "use" and "const" in d[3]["ops"][0] and d[3]["ops"][0]["const"].get("int") in (0, 1) for d in defs):
+            defs = [d for d in body.defs().get(c[1], []) if d[1] in r]
+            if not defs:
                 continue
-            vals = {d[3]["ops"][0]["const"]["int"] for d in defs if d[1] in r}
+            vals = set()
+            for d in defs:
+                if d[0] == "=" and d[3]["k"] == "use" and "const" in d[3]["ops"][0] and d[3]["ops"][0]["const"].get("int") in (0, 1):
+                    vals.add(d[3]["ops"][0]["const"]["int"])
+                    continue
+                # a non-constant definition: decided if the assumption itself fixes its truth
+                e_d = body.def_expr(d, 6)
+                if any(p(e_d, False) for p in impossible):
+                    vals.add(1)
+                elif any(p(e_d, True) for p in impossible):
+                    vals.add(0)
+                else:
+                    vals = {0, 1}
+                    break
             for lab, tb in br[1]:
                 if isinstance(lab, bool):
                     v = lab if tr else (not lab)
@@ -350,3 +363,14 @@ def is_noise(body, bb):
     """block belongs to a tracing/log macro expansion"""
     m = body.term(bb).get("mac")
     return bool(m) and any(x in ("trace", "debug", "error", "warn", "info", "event", "log") for x in m)
+
+
+def discr_of_call(c, pat):
+    """c is `discr(<result of call matching pat>[projections])` — the call is
+    the value being matched, not merely an input of it"""
+    if not (isinstance(c, tuple) and c[0] == "discr"):
+        return False
+    e = c[1]
+    if e[0] == "place":
+        e = e[1]
+    return e[0] == "call" and rx(pat).search(e[1] or "") is not None
